@@ -143,11 +143,52 @@ def _inline_site(F, bi, H):
                             "term": {"k": "goto", "t": t["target"], "line": t.get("line"), "exp": t.get("exp", False)},
                             "inlined_from": owner})
     _thread_try(F, t, off, boff, nH)
+    if cont is not None and t["dest"]["l"] == 0 and not t["dest"]["p"]:
+        # tail position (`fn f() -> R { ..; helper(..) }`): the helper's return slot *is* f's, so that its `Ok(..)` / `Err(..)` are f's results
+        _rename_local(F["blocks"][boff:], off, 0)
+        F["blocks"][cont]["stmts"] = []
     # parameter passing + jump
     blk = F["blocks"][bi]
     for k, a in enumerate(t["args"]):
         blk["stmts"].append({"k": "assign", "place": {"l": off + 1 + k, "p": []}, "rv": {"k": "use", "op": a}, "line": t.get("line"), "exp": t.get("exp", False)})
     blk["term"] = {"k": "goto", "t": boff, "line": t.get("line"), "exp": t.get("exp", False), "inlined_call": owner}
+
+
+def _rename_local(blocks, a, b):
+    def place(p):
+        if p["l"] == a:
+            p["l"] = b
+        for x in p["p"]:
+            if x["k"] == "index" and x["l"] == a:
+                x["l"] = b
+
+    def op(o):
+        if isinstance(o, dict) and o.get("k") in ("move", "copy"):
+            place(o["place"])
+    for blk in blocks:
+        for s_ in blk["stmts"]:
+            if "place" in s_:
+                place(s_["place"])
+            rv = s_.get("rv") or {}
+            if "place" in rv:
+                place(rv["place"])
+            for key in ("op", "a", "b"):
+                if key in rv:
+                    op(rv[key])
+            for o in rv.get("ops", []):
+                op(o)
+        t_ = blk["term"]
+        if not t_:
+            continue
+        for key in ("discr", "cond", "fnop"):
+            if key in t_ and t_[key] is not None:
+                op(t_[key])
+        for o in t_.get("args", []) + t_.get("msg_ops", []):
+            op(o)
+        if t_.get("dest"):
+            place(t_["dest"])
+        if t_["k"] == "drop":
+            place(t_["place"])
 
 
 def _agg(path, variant, vidx, ops):
